@@ -39,6 +39,8 @@ func main() {
 		b = core.Pick(c, 150*time.Second, 40*time.Minute)
 	}
 	c.Deadline = time.Now().Add(b)
-	ck.Run(c)
+	// a panic that escapes the check's main goroutine is a verdict about the library
+	// (checks guard their own harness code), not a crash of the checker
+	c.Safely(func() { ck.Run(c) })
 	os.Exit(c.Finish())
 }
